@@ -1049,7 +1049,7 @@ func first(a, _ []byte) []byte { return a }
 //@   requires t != nil && leafT() == typeid(alphaLeafNode) && ptr != nil && inT(ptr) && allocated(ptr) && !pooled(ptr) && atype(ptr) == leafT()
 //@   requires reveal(ptr) && LeafOK_alpha(ptr)
 //@   ensures[pure] frame()
-//@   assigns B
+//@   assigns nothing
 
 //@ func (*{unsigned,signed,float,compound}SortedTree[K,V]).restoreKey
 //@   opt kind $KIND
@@ -1122,9 +1122,11 @@ func first(a, _ []byte) []byte { return a }
 //@   opt kind alpha
 //@   opt casts on
 //@   opt extent on
+//@   let start0 = start
+//@   let end0 = end
 //@   requires WF1in_alpha(t)
 //@   ensures[pure] frame()
-//@   ensures[arg_bytes_unchanged] sameBytes(start, 0, blen(start.obj)) && sameBytes(end, 0, blen(end.obj))
+//@   ensures[arg_bytes_unchanged] sameBytes(start0, 0, blen(start0.obj)) && sameBytes(end0, 0, blen(end0.obj))
 
 //@ func (*collationSortedTree[K,V]).Prefix
 //@   opt bind K=string
